@@ -74,6 +74,17 @@ func newParserModel(w *World) *parserModel {
 				}
 			}
 		}
+		// parser functions handed around as values (`p.parseBinary("|", p.parseAnd, Or)`)
+		allInstrs(fn, func(ins ssa.Instruction) {
+			for _, op := range ins.Operands(nil) {
+				if op == nil || *op == nil {
+					continue
+				}
+				if fv := funcValueOf(w, *op); fv != nil && m.inPkg[fv] && m.returnsFormulaErr(fv) {
+					visit(fv)
+				}
+			}
+		})
 	}
 	visit(pm.parse)
 	for fn := range seen {
@@ -105,14 +116,81 @@ func newParserModel(w *World) *parserModel {
 	return pm
 }
 
-// tokenTest: cond compares a string field of the receiver with a string literal. eq tells whether the comparison
-// is an equality.
-func tokenTest(fn *ssa.Function, cond ssa.Value) (tok string, eq bool, ok bool) {
+// funcValueOf: the source function a function value denotes (a function, a method value `p.parseAnd`, a literal).
+func funcValueOf(w *World, v ssa.Value) *ssa.Function {
+	switch x := v.(type) {
+	case *ssa.MakeClosure:
+		if f, ok := x.Fn.(*ssa.Function); ok {
+			return w.unwrap(f)
+		}
+	case *ssa.Function:
+		return w.unwrap(x)
+	}
+	return nil
+}
+
+// A pnode is a parser function together with what is known about its parameters at the call considered: string
+// constants and function values (a parser written with a generic level, `parseBinary(op, operand, build)`, is one
+// function used as several levels).
+type pnode struct {
+	fn  *ssa.Function
+	env map[*ssa.Parameter]ssa.Value
+}
+
+func envValString(v ssa.Value) string {
+	switch x := v.(type) {
+	case *ssa.MakeClosure:
+		return x.Fn.String()
+	case *ssa.Function:
+		return x.String()
+	case *ssa.Const:
+		return x.String()
+	}
+	return v.Name()
+}
+
+func (n *pnode) key() string {
+	var ks []string
+	for p, v := range n.env {
+		ks = append(ks, p.Name()+"="+envValString(v))
+	}
+	sort.Strings(ks)
+	return n.fn.String() + "{" + strings.Join(ks, ",") + "}"
+}
+
+// Name: the function name, with the string constants it was instantiated with.
+func (n *pnode) Name() string {
+	var ks []string
+	for _, v := range n.env {
+		if s, ok := constString(v); ok {
+			ks = append(ks, fmt.Sprintf("%q", s))
+		}
+	}
+	sort.Strings(ks)
+	if len(ks) == 0 {
+		return n.fn.Name()
+	}
+	return n.fn.Name() + "(" + strings.Join(ks, ",") + ")"
+}
+
+func (n *pnode) resolve(v ssa.Value) ssa.Value {
+	if p, ok := v.(*ssa.Parameter); ok {
+		if b, ok := n.env[p]; ok {
+			return b
+		}
+	}
+	return v
+}
+
+// tokenTest: cond compares a string field of the receiver with a string literal (or with a parameter bound to one).
+// eq tells whether the comparison is an equality.
+func tokenTest(n *pnode, cond ssa.Value) (tok string, eq bool, ok bool) {
+	fn := n.fn
 	bo, isB := cond.(*ssa.BinOp)
 	if !isB || (bo.Op != token.EQL && bo.Op != token.NEQ) {
 		return "", false, false
 	}
-	x, y := bo.X, bo.Y
+	x, y := n.resolve(bo.X), n.resolve(bo.Y)
 	if _, isK := x.(*ssa.Const); isK {
 		x, y = y, x
 	}
@@ -131,9 +209,34 @@ func tokenTest(fn *ssa.Function, cond ssa.Value) (tok string, eq bool, ok bool) 
 	return s, bo.Op == token.EQL, true
 }
 
+// successTokens: for a helper of the parser that returns only an error (`func (p *parser) scanArrow() error`), the
+// token equalities that hold on every path that returns nil: what a caller knows after `if err := h(); err != nil
+// { return }`. ok is false when the helper is not of that kind or its successful returns disagree.
+func (pm *parserModel) successTokens(h *ssa.Function) ([]string, bool) {
+	if h == nil || !pm.m.inPkg[h] || len(h.Blocks) == 0 || h.Signature.Results().Len() != 1 || !isErrorType(h.Signature.Results().At(0).Type()) {
+		return nil, false
+	}
+	var out []string
+	n := 0
+	hn := &pnode{fn: h}
+	for _, b := range h.Blocks {
+		ret, ok := b.Instrs[len(b.Instrs)-1].(*ssa.Return)
+		if !ok || len(ret.Results) != 1 || !allNil(ret.Results[0]) {
+			continue
+		}
+		toks := pm.tokensAt(hn, b)
+		if n > 0 && !sameToks(toks, out) {
+			return nil, false
+		}
+		out = toks
+		n++
+	}
+	return out, n > 0
+}
+
 // tokensAt: the token equalities known to hold (at the time of their test) on every path to block b, outermost
-// first.
-func tokensAt(fn *ssa.Function, b *ssa.BasicBlock) []string {
+// first; the tokens a successful error-only helper has seen count at the place of the test of its error.
+func (pm *parserModel) tokensAt(n *pnode, b *ssa.BasicBlock) []string {
 	var out []string
 	conds := dominatingConds(b)
 	for i := len(conds) - 1; i >= 0; i-- {
@@ -148,8 +251,23 @@ func tokensAt(fn *ssa.Function, b *ssa.BasicBlock) []string {
 			}
 			break
 		}
-		if tok, eq, ok := tokenTest(fn, c); ok && eq == pol {
+		if tok, eq, ok := tokenTest(n, c); ok && eq == pol {
 			out = append(out, tok)
+			continue
+		}
+		// `err != nil` false (or `err == nil` true) for the error of a helper
+		if bo, ok := c.(*ssa.BinOp); ok && (bo.Op == token.EQL || bo.Op == token.NEQ) && (bo.Op == token.EQL) == pol {
+			x, y := bo.X, bo.Y
+			if isNilConst(x) {
+				x, y = y, x
+			}
+			if call, isCall := x.(*ssa.Call); isCall && isNilConst(y) {
+				if sc := call.Call.StaticCallee(); sc != nil {
+					if toks, ok := pm.successTokens(pm.w.unwrap(sc)); ok {
+						out = append(out, toks...)
+					}
+				}
+			}
 		}
 	}
 	return out
@@ -157,16 +275,18 @@ func tokensAt(fn *ssa.Function, b *ssa.BasicBlock) []string {
 
 type parserSite struct {
 	call   *ssa.Call
-	callee *ssa.Function // parser function, or nil
-	ctor   string        // exported constructor of the package, or ""
+	callee *pnode // parser function (instantiated), or nil
+	ctor   string // exported constructor of the package, or ""
 	toks   []string
+	owner  *pnode // the function the call is in
 }
 
 func (s parserSite) tokKey() string { return strings.Join(s.toks, " ") }
 
 var bfCtors = map[string]bool{"And": true, "Or": true, "Not": true, "Eq": true, "Implies": true, "Xor": true, "Unique": true, "Var": true}
 
-func (pm *parserModel) sites(fn *ssa.Function) []parserSite {
+func (pm *parserModel) sites(n *pnode) []parserSite {
+	fn := n.fn
 	var out []parserSite
 	isParser := map[*ssa.Function]bool{}
 	for _, f := range pm.fns {
@@ -178,17 +298,37 @@ func (pm *parserModel) sites(fn *ssa.Function) []parserSite {
 			continue
 		}
 		sc := c.Call.StaticCallee()
+		static := sc != nil
 		if sc == nil {
-			continue
+			// a call through a parameter bound to a function value
+			sc = funcValueOf(pm.w, n.resolve(c.Call.Value))
+			if sc == nil {
+				continue
+			}
+		} else {
+			sc = pm.w.unwrap(sc)
 		}
-		sc = pm.w.unwrap(sc)
 		if !pm.m.inPkg[sc] {
 			continue
 		}
-		s := parserSite{call: c, toks: tokensAt(fn, c.Block())}
+		s := parserSite{call: c, toks: pm.tokensAt(n, c.Block()), owner: n}
 		switch {
 		case isParser[sc] && sc != pm.parse:
-			s.callee = sc
+			child := &pnode{fn: sc, env: map[*ssa.Parameter]ssa.Value{}}
+			if static {
+				for i, a := range c.Call.Args {
+					if i >= len(sc.Params) {
+						break
+					}
+					a = n.resolve(a)
+					if _, isStr := constString(a); isStr {
+						child.env[sc.Params[i]] = a
+					} else if funcValueOf(pm.w, a) != nil {
+						child.env[sc.Params[i]] = a
+					}
+				}
+			}
+			s.callee = child
 		case sc.Parent() == nil && sc.Signature.Recv() == nil && ast.IsExported(sc.Name()) && sc.Signature.Results().Len() == 1 && pm.m.isFormula(sc.Signature.Results().At(0).Type()):
 			s.ctor = sc.Name()
 		default:
@@ -197,6 +337,34 @@ func (pm *parserModel) sites(fn *ssa.Function) []parserSite {
 		out = append(out, s)
 	}
 	return out
+}
+
+// delegate: a parser function that only hands on the results of one unconditional call of another parser function
+// (`func (p *parser) parseOr() (Formula, error) { return p.parseBinary("|", p.parseAnd, Or) }`) is that other
+// function, instantiated; anything else is itself.
+func (pm *parserModel) delegate(n *pnode) *pnode {
+	for i := 0; i < 4; i++ {
+		ss := pm.sites(n)
+		if len(ss) != 1 || ss[0].callee == nil || len(ss[0].toks) != 0 || ss[0].callee.fn == n.fn {
+			return n
+		}
+		only := true
+		for _, b := range n.fn.Blocks {
+			ret, ok := b.Instrs[len(b.Instrs)-1].(*ssa.Return)
+			if !ok || len(ret.Results) != 2 {
+				continue
+			}
+			src, unknown := formulaSources(ret.Results[0], ret)
+			if unknown || len(src) != 1 || !src[ss[0].call] {
+				only = false
+			}
+		}
+		if !only {
+			return n
+		}
+		n = ss[0].callee
+	}
+	return n
 }
 
 // formulaSources: the calls whose results a formula value is made of (through cells, phis, variadic packing).
@@ -303,35 +471,36 @@ func ruleR17_1(w *World, r *Report) {
 		return
 	}
 	// ---- the chain of levels
-	chain := []*ssa.Function{pm.level0}
-	rows := map[*ssa.Function][]parserSite{}
-	inChain := map[*ssa.Function]bool{pm.level0: true}
+	chain := []*pnode{pm.delegate(&pnode{fn: pm.level0})}
+	rows := map[string][]parserSite{}
+	inChain := map[string]bool{chain[0].key(): true}
 	for len(chain) < 20 {
 		cur := chain[len(chain)-1]
 		ss := pm.sites(cur)
-		rows[cur] = ss
-		next := map[*ssa.Function]bool{}
+		rows[cur.key()] = ss
+		next := map[string]*pnode{}
 		for _, s := range ss {
 			if s.callee != nil && len(s.toks) == 0 {
-				next[s.callee] = true
+				d := pm.delegate(s.callee)
+				next[d.key()] = d
 			}
 		}
 		if len(next) == 0 {
 			break
 		}
 		if len(next) > 1 {
-			r.Unk(id, "grammar chain", w.Pos(cur.Pos()), fmt.Sprintf("level %d (%s) takes its unconditional operand from %d different functions", len(chain)-1, w.FuncName(cur), len(next)))
+			r.Unk(id, "grammar chain", w.Pos(cur.fn.Pos()), fmt.Sprintf("level %d (%s) takes its unconditional operand from %d different functions", len(chain)-1, w.FuncName(cur.fn), len(next)))
 			return
 		}
-		var n *ssa.Function
-		for f := range next {
+		var n *pnode
+		for _, f := range next {
 			n = f
 		}
-		if inChain[n] {
-			r.Unk(id, "grammar chain", w.Pos(cur.Pos()), fmt.Sprintf("level %d (%s) takes its unconditional operand from a looser level (%s): left recursion", len(chain)-1, w.FuncName(cur), w.FuncName(n)))
+		if inChain[n.key()] {
+			r.Unk(id, "grammar chain", w.Pos(cur.fn.Pos()), fmt.Sprintf("level %d (%s) takes its unconditional operand from a looser level (%s): left recursion", len(chain)-1, w.FuncName(cur.fn), w.FuncName(n.fn)))
 			return
 		}
-		inChain[n] = true
+		inChain[n.key()] = true
 		chain = append(chain, n)
 	}
 	var names []string
@@ -344,14 +513,16 @@ func ruleR17_1(w *World, r *Report) {
 	} else {
 		r.OK(id, "grammar chain", w.Pos(pm.parse.Pos()), "levels from loosest to tightest: "+strings.Join(names, " "))
 	}
-	levelOf := func(f *ssa.Function) string {
+	levelOf := func(f *pnode) string {
+		f = pm.delegate(f)
 		for i, g := range chain {
-			if g == f {
+			if g.key() == f.key() {
 				return fmt.Sprintf("level %d (%s)", i, g.Name())
 			}
 		}
 		return "a function outside the chain (" + f.Name() + ")"
 	}
+	same := func(a, b *pnode) bool { return pm.delegate(a).key() == pm.delegate(b).key() }
 	// ---- binary levels
 	for k, spec := range binaryLevels {
 		key := fmt.Sprintf("level %d %s", k, spec.desc)
@@ -360,14 +531,14 @@ func ruleR17_1(w *World, r *Report) {
 			continue
 		}
 		fn := chain[k]
-		pos := w.Pos(fn.Pos())
+		pos := w.Pos(fn.fn.Pos())
 		var left, right, ctor *parserSite
 		var problems []string
-		for i := range rows[fn] {
-			s := &rows[fn][i]
+		for i := range rows[fn.key()] {
+			s := &rows[fn.key()][i]
 			switch {
 			case s.callee != nil && len(s.toks) == 0:
-				if left != nil && left.callee != s.callee {
+				if left != nil && !same(left.callee, s.callee) {
 					problems = append(problems, "two unconditional operand calls")
 				}
 				left = s
@@ -392,7 +563,7 @@ func ruleR17_1(w *World, r *Report) {
 		switch {
 		case left == nil || right == nil || ctor == nil:
 			have := []string{}
-			for _, s := range rows[fn] {
+			for _, s := range rows[fn.key()] {
 				have = append(have, fmt.Sprintf("[%s]%s%s", s.tokKey(), s.ctor, nameOr(s.callee)))
 			}
 			r.Bad(id, key, pos, fmt.Sprintf("%s does not have the shape <left operand> [%s <right operand> -> %s]: found %s", fn.Name(), strings.Join(spec.toks, ""), spec.ctor, strings.Join(have, " ")))
@@ -403,7 +574,7 @@ func ruleR17_1(w *World, r *Report) {
 		case ctor.ctor != spec.ctor:
 			r.Bad(id, key, w.InstrPos(ctor.call), fmt.Sprintf("%s: operator %q builds %s, the documented meaning is %s", fn.Name(), strings.Join(spec.toks, ""), ctor.ctor, spec.ctor))
 			continue
-		case right.callee != fn:
+		case !same(right.callee, fn):
 			r.Bad(id, key, w.InstrPos(right.call), fmt.Sprintf("%s: the right operand of %q is parsed at %s, not at the operator's own level: repetition of the operator is not right-nested", fn.Name(), strings.Join(spec.toks, ""), levelOf(right.callee)))
 			continue
 		}
@@ -416,7 +587,7 @@ func ruleR17_1(w *World, r *Report) {
 			}
 			continue
 		}
-		if st, d := returnsOnly(fn, []*ssa.Call{left.call, ctor.call}, ctor.call); st != Discharged {
+		if st, d := returnsOnly(fn.fn, []*ssa.Call{left.call, ctor.call}, ctor.call); st != Discharged {
 			if st == Violated {
 				r.Bad(id, key, pos, fn.Name()+": "+d)
 			} else {
@@ -435,8 +606,8 @@ func ruleR17_1(w *World, r *Report) {
 		fn := chain[kp]
 		var down, self, ctor *parserSite
 		var problems []string
-		for i := range rows[fn] {
-			s := &rows[fn][i]
+		for i := range rows[fn.key()] {
+			s := &rows[fn.key()][i]
 			switch {
 			case s.callee != nil && len(s.toks) == 0:
 				down = s
@@ -460,17 +631,17 @@ func ruleR17_1(w *World, r *Report) {
 		}
 		switch {
 		case down == nil || self == nil || ctor == nil:
-			r.Bad(id, keyP, w.Pos(fn.Pos()), fn.Name()+" does not have the shape ['^' <operand> -> Not] | <atom>")
+			r.Bad(id, keyP, w.Pos(fn.fn.Pos()), fn.Name()+" does not have the shape ['^' <operand> -> Not] | <atom>")
 		case len(problems) > 0:
 			r.Bad(id, keyP, w.InstrPos(ctor.call), fn.Name()+": "+strings.Join(problems, "; "))
 		case ctor.ctor != "Not":
 			r.Bad(id, keyP, w.InstrPos(ctor.call), fmt.Sprintf("%s: '^' builds %s instead of Not", fn.Name(), ctor.ctor))
-		case self.callee != fn:
+		case !same(self.callee, fn):
 			r.Bad(id, keyP, w.InstrPos(self.call), fmt.Sprintf("%s: the operand of '^' is parsed at %s, not at the level of '^' itself", fn.Name(), levelOf(self.callee)))
 		default:
 			st, d := ctorOperands(ctor, self, nil, false)
 			if st == Discharged {
-				st, d = returnsOnly(fn, []*ssa.Call{down.call, ctor.call}, ctor.call)
+				st, d = returnsOnly(fn.fn, []*ssa.Call{down.call, ctor.call}, ctor.call)
 			}
 			switch st {
 			case Discharged:
@@ -494,11 +665,32 @@ func ruleR17_1(w *World, r *Report) {
 		return
 	}
 	fn := chain[ka]
+	// the sites of the atom level, with those of the parser functions it delegates a kind of atom to
+	// (`case "(": return p.parseGroup()`): their tokens are prefixed with those of the delegating call
+	var atomSites []parserSite
+	var expand func(n *pnode, prefix []string, depth int)
+	expand = func(n *pnode, prefix []string, depth int) {
+		for _, s := range pm.sites(n) {
+			s.toks = append(append([]string(nil), prefix...), s.toks...)
+			if s.callee != nil && depth < 3 && !inChain[pm.delegate(s.callee).key()] && s.callee.fn != n.fn {
+				expand(s.callee, s.toks, depth+1)
+				continue
+			}
+			atomSites = append(atomSites, s)
+		}
+	}
+	expand(fn, nil, 0)
+	prefixOf := map[*pnode][]string{}
+	for _, s := range atomSites {
+		if _, ok := prefixOf[s.owner]; !ok {
+			prefixOf[s.owner] = s.toks[:len(s.toks)-len(pm.tokensAt(s.owner, s.call.Block()))]
+		}
+	}
 	var group []*parserSite
 	var uniq, vr []*parserSite
 	var other []string
-	for i := range rows[fn] {
-		s := &rows[fn][i]
+	for i := range atomSites {
+		s := &atomSites[i]
 		switch {
 		case s.callee != nil:
 			group = append(group, s)
@@ -510,18 +702,20 @@ func ruleR17_1(w *World, r *Report) {
 			other = append(other, s.ctor)
 		}
 	}
+	top := &pnode{fn: pm.level0}
 	// parenthesis
 	switch {
 	case len(group) != 1:
-		r.Bad(id, keyParen, w.Pos(fn.Pos()), fmt.Sprintf("%s calls the parser %d times; expected exactly one re-entry, after '('", fn.Name(), len(group)))
+		r.Bad(id, keyParen, w.Pos(fn.fn.Pos()), fmt.Sprintf("%s calls the parser %d times; expected exactly one re-entry, after '('", fn.Name(), len(group)))
 	case len(group[0].toks) == 0 || group[0].toks[0] != "(":
 		r.Bad(id, keyParen, w.InstrPos(group[0].call), fmt.Sprintf("%s re-enters the parser after the token sequence %q, not after '('", fn.Name(), group[0].tokKey()))
-	case group[0].callee != pm.level0:
-		r.Bad(id, keyParen, w.InstrPos(group[0].call), fmt.Sprintf("after '(' the parser re-enters at %s; the documented grammar (atom ::= '(' formula ')') re-enters at the loosest level, %s, the one Parse starts from: a group containing the looser operator(s) is rejected", levelOf(group[0].callee), levelOf(pm.level0)))
+	case !same(group[0].callee, top):
+		r.Bad(id, keyParen, w.InstrPos(group[0].call), fmt.Sprintf("after '(' the parser re-enters at %s; the documented grammar (atom ::= '(' formula ')') re-enters at the loosest level, %s, the one Parse starts from: a group containing the looser operator(s) is rejected", levelOf(group[0].callee), levelOf(top)))
 	default:
 		// the group is returned only after ')'
+		owner := group[0].owner
 		n, bad := 0, ""
-		for _, b := range fn.Blocks {
+		for _, b := range owner.fn.Blocks {
 			ret, ok := b.Instrs[len(b.Instrs)-1].(*ssa.Return)
 			if !ok || len(ret.Results) != 2 || !isSuccessReturn(ret) {
 				continue
@@ -531,36 +725,37 @@ func ruleR17_1(w *World, r *Report) {
 				continue
 			}
 			n++
-			if !sameToks(tokensAt(fn, b), []string{"(", ")"}) {
-				bad = fmt.Sprintf("the group is returned at %s after the token sequence %q, not after '(' ... ')'", w.InstrPos(ret), strings.Join(tokensAt(fn, b), " "))
+			toks := append(append([]string(nil), prefixOf[owner]...), pm.tokensAt(owner, b)...)
+			if !sameToks(toks, []string{"(", ")"}) {
+				bad = fmt.Sprintf("the group is returned at %s after the token sequence %q, not after '(' ... ')'", w.InstrPos(ret), strings.Join(toks, " "))
 			}
 		}
 		switch {
 		case bad != "":
-			r.Bad(id, keyParen, w.InstrPos(group[0].call), fn.Name()+": "+bad)
+			r.Bad(id, keyParen, w.InstrPos(group[0].call), owner.Name()+": "+bad)
 		case n == 0:
-			r.Unk(id, keyParen, w.InstrPos(group[0].call), fn.Name()+": the parsed group is never returned")
+			r.Unk(id, keyParen, w.InstrPos(group[0].call), owner.Name()+": the parsed group is never returned")
 		default:
-			r.OK(id, keyParen, w.InstrPos(group[0].call), fmt.Sprintf("%s: '(' re-enters at %s and the group is returned only after ')'", fn.Name(), levelOf(pm.level0)))
+			r.OK(id, keyParen, w.InstrPos(group[0].call), fmt.Sprintf("%s: '(' re-enters at %s and the group is returned only after ')'", owner.Name(), levelOf(top)))
 		}
 	}
 	// exactly-one group
 	switch {
 	case len(uniq) != 1:
-		r.Bad(id, keyUniq, w.Pos(fn.Pos()), fmt.Sprintf("%s builds Unique at %d places; expected once, after '{'", fn.Name(), len(uniq)))
+		r.Bad(id, keyUniq, w.Pos(fn.fn.Pos()), fmt.Sprintf("%s builds Unique at %d places; expected once, after '{'", fn.Name(), len(uniq)))
 	case len(uniq[0].toks) == 0 || uniq[0].toks[0] != "{":
 		r.Bad(id, keyUniq, w.InstrPos(uniq[0].call), fmt.Sprintf("%s builds Unique after the token sequence %q, not after '{'", fn.Name(), uniq[0].tokKey()))
 	case !sameToks(uniq[0].toks, []string{"{", "}"}):
 		r.Bad(id, keyUniq, w.InstrPos(uniq[0].call), fmt.Sprintf("%s builds Unique after the token sequence %q, expected '{' ... '}'", fn.Name(), uniq[0].tokKey()))
 	default:
-		r.OK(id, keyUniq, w.InstrPos(uniq[0].call), fn.Name()+": '{' ... '}' builds Unique")
+		r.OK(id, keyUniq, w.InstrPos(uniq[0].call), uniq[0].owner.Name()+": '{' ... '}' builds Unique")
 	}
 	// identifier
 	switch {
 	case len(other) > 0:
-		r.Bad(id, keyVar, w.Pos(fn.Pos()), fmt.Sprintf("%s applies %v, which no atom of the documented grammar builds", fn.Name(), other))
+		r.Bad(id, keyVar, w.Pos(fn.fn.Pos()), fmt.Sprintf("%s applies %v, which no atom of the documented grammar builds", fn.Name(), other))
 	case len(vr) != 1:
-		r.Bad(id, keyVar, w.Pos(fn.Pos()), fmt.Sprintf("%s builds Var at %d places; expected once, as the default", fn.Name(), len(vr)))
+		r.Bad(id, keyVar, w.Pos(fn.fn.Pos()), fmt.Sprintf("%s builds Var at %d places; expected once, as the default", fn.Name(), len(vr)))
 	case len(vr[0].toks) != 0:
 		r.Bad(id, keyVar, w.InstrPos(vr[0].call), fmt.Sprintf("%s builds Var only after the token sequence %q", fn.Name(), vr[0].tokKey()))
 	default:
@@ -568,7 +763,7 @@ func ruleR17_1(w *World, r *Report) {
 	}
 }
 
-func nameOr(f *ssa.Function) string {
+func nameOr(f *pnode) string {
 	if f == nil {
 		return ""
 	}
